@@ -22,7 +22,7 @@ COMPONENTS = {
 }
 
 
-def write_evidence(prop, tier, seed, profile, tot, wall, violations, known_printed, known_entries, directed, shrink_stats, args):
+def write_evidence(prop, tier, seed, profile, tot, wall, violations, known_printed, known_entries, directed, shrink_stats, args, directed_info=None):
     runs = tot["runs"]
     fired = dict(sorted(tot["faults_fired"].items()))
     probes = {k: v for k, v in sorted(tot["stats"].items()) if k.startswith(("probe:", "intr@", "restart_", "F7.", "precondition", "quantities_", "skipped", "st:"))}
@@ -60,6 +60,7 @@ def write_evidence(prop, tier, seed, profile, tot, wall, violations, known_print
         "probes": probes,
         "components": COMPONENTS,
         "directed_replays": directed,
+        "directed_whole_database_checks": directed_info or [],
         "known_findings_hit": sorted(known_printed),
         "shrink": shrink_stats,
         "harness_incidents": len(tot["harness"]),
